@@ -139,6 +139,7 @@ pub fn run(ctx: &Ctx, rep: &mut Report) {
         let initial_supply: BTreeMap<[u8; 32], i128> = toks.iter().filter(|t| !t.lock).map(|t| (t.id, if t.label == "native-A" { 1000 } else { 0 })).collect();
         let mut probe_refuses = false;
         let mut alive = true;
+        let mut window: Option<Address> = None;
         let mut executed_inbound: Vec<(Vec<u8>, Vec<u8>)> = Vec::new(); // (message id, payload)
         // scripted follow-ups: a valid transfer toward X, X loses its trust, the same transfer again
         let mut script: std::collections::VecDeque<(&str, Vec<u8>)> = std::collections::VecDeque::new();
@@ -151,16 +152,32 @@ pub fn run(ctx: &Ctx, rep: &mut Report) {
                 probe_refuses = !probe_refuses;
                 set_probe_fail(&mut w.u, &probe_tok, probe_refuses);
             }
-            // the service or the gateway is upgraded to the same code and migrated
-            if rng.chance(1, 20) {
-                let a = if rng.chance(1, 2) { w.its.clone() } else { w.g.addr.clone() };
-                if w.u.upgrade_and_migrate(&a).is_ok() {
-                    rep.step("upgrade to the same code and migration".into());
-                    rep.count("upgrade-and-migrate");
-                    if let Some(dd) = w.check_registry() {
-                        rep.violation("registry-or-trust-changed-by-upgrade-and-migrate", dd);
-                        alive = false;
-                        break;
+            // the service or the gateway is upgraded to the same code; the migration follows a few
+            // operations later (while the window is open a valid request may be refused, but one
+            // that is accepted must have its full effect)
+            match window.clone() {
+                None => {
+                    if rng.chance(1, 20) {
+                        let a = if rng.chance(1, 2) { w.its.clone() } else { w.g.addr.clone() };
+                        if w.u.upgrade_only(&a).is_ok() {
+                            rep.step("upgrade to the same code: the migration window opens".into());
+                            rep.count("migration-window-opened");
+                            window = Some(a);
+                        }
+                    }
+                }
+                Some(a) => {
+                    if rng.chance(1, 3) {
+                        if w.u.migrate_only(&a, &[]).is_ok() {
+                            rep.step("migration: the window closes".into());
+                            rep.count("upgrade-and-migrate");
+                        }
+                        window = None;
+                        if let Some(dd) = w.check_registry() {
+                            rep.violation("registry-or-trust-changed-by-upgrade-and-migrate", dd);
+                            alive = false;
+                            break;
+                        }
                     }
                 }
             }
@@ -286,6 +303,10 @@ pub fn run(ctx: &Ctx, rep: &mut Report) {
                         rep.violation("failed-transfer-left-trace", l.clone());
                         alive = false;
                         break;
+                    }
+                    if window.is_some() && want && !o.ok() {
+                        rep.count("note:valid-request-refused-while-migration-window-open");
+                        continue;
                     }
                     if o.ok() != want {
                         let why = if unauth {
@@ -444,6 +465,10 @@ pub fn run(ctx: &Ctx, rep: &mut Report) {
                         rep.violation("failed-inbound-left-trace", l.clone());
                         alive = false;
                         break;
+                    }
+                    if window.is_some() && want == Some(true) && !o.ok() {
+                        rep.count("note:valid-request-refused-while-migration-window-open");
+                        continue;
                     }
                     if let Some(wnt) = want {
                         if o.ok() != wnt {
